@@ -1,5 +1,7 @@
 import BFL.Model.SIS
 import BFL.Proofs.SIS
+import BFL.Proofs.ResamplePrior
+import BFL.Props.C07
 /-
 C06 — The SIS recursion keeps a normalised, fixed-size, correctly re-weighted particle set.
 
@@ -182,8 +184,8 @@ theorem sis_resample_iff (cfg : SisCfg ℝ) (s : SisState π ℝ) (ev : SisEvent
   · intro h
     rw [sisStep_resampled] at h
     refine ⟨by rw [sisStep_cor, h]; rfl, ?_⟩
-    unfold sisStep
-    simp [h]
+    show (sisStepWith resample cfg s ev).rng = s.rng
+    rw [sisStepWith_rng, h]; rfl
 
 /-- After a resampling: `N` particles with the filter's layout, all log-weights `-log N`
     (normalised), one draw consumed, and every particle is the corrected particle at the parent
@@ -203,7 +205,8 @@ theorem sis_after_resample_uniform (cfg : SisCfg ℝ) (lin circ : Nat) (hN : 0 <
   have h1 := resampled_ok cfg.N lin circ hN _ hc (s.rng.headD default)
   refine ⟨by rw [sisStep_cor, hr]; exact h1.2, by rw [sisStep_cor, hr]; exact h1.1, ?_,
     by rw [sisStep_parents, hr]; rfl, ?_⟩
-  · unfold sisStep; simp [hr]
+  · show (sisStepWith resample cfg s ev).rng = s.rng.tail
+    rw [sisStepWith_rng, hr]; rfl
   · intro j hj
     obtain ⟨p, hp, _, h3, h4⟩ := resample_copy (sisCorrect cfg s ev)
       (PSet.fresh cfg.N (sisCorrect cfg s ev).lin (sisCorrect cfg s ev).circ) (s.rng.headD default)
@@ -214,9 +217,62 @@ theorem sis_after_resample_uniform (cfg : SisCfg ℝ) (lin circ : Nat) (hN : 0 <
 theorem sis_flags_after (cfg : SisCfg ℝ) (s : SisState π ℝ) (ev : SisEvent π ℝ) :
     (sisStep cfg s ev).skipPred = (ev.cmds.foldl applyCmd (s.skipPred, s.skipCor)).1 ∧
     (sisStep cfg s ev).skipCor = (ev.cmds.foldl applyCmd (s.skipPred, s.skipCor)).2 := by
-  unfold sisStep
-  simp only
-  split <;> exact ⟨rfl, rfl⟩
+  exact sisStepWith_flags _ cfg s ev
+
+/-! ### Any resampling implementation
+
+`resampling()` is a virtual object: the filter may be built with `Resampling` or with
+`ResamplingWithPrior` (or a user's).  The invariant only needs the contract `ResamplerOK`: from a
+well-formed, normalised corrected set and a destination of the filter's shape the resampler returns a
+well-formed set whose weights are all `-log N`.  Both shipped resamplers meet it. -/
+
+theorem sis_inv_step_any_resampler (rs : PSet π ℝ → PSet π ℝ → ℝ → PSet π ℝ × List Int)
+    (cfg : SisCfg ℝ) (lin circ : Nat) (hN : 0 < cfg.N) (hrs : ResamplerOK cfg.N lin circ rs)
+    (s : SisState π ℝ) (ev : SisEvent π ℝ) (hinv : SisInv cfg lin circ s) (hev : EvOK cfg.N ev) :
+    SisInv cfg lin circ (sisStepWith rs cfg s ev) ∧ (sisStepWith rs cfg s ev).step = s.step + 1 ∧
+    ((sisStepWith rs cfg s ev).resampled = true →
+      (sisStepWith rs cfg s ev).cor.logw = List.replicate cfg.N (-(Real.log (cfg.N : ℝ)))) := by
+  refine ⟨sis_inv_stepWith rs cfg lin circ hN hrs s ev hinv hev, sisStepWith_step rs cfg s ev, ?_⟩
+  intro hr
+  rw [sisStepWith_resampled] at hr
+  have hc := sisCorrect_ok cfg lin circ hN s ev hinv hev
+  rw [sisStepWith_cor, hr]
+  exact (hrs _ _ _ hc (by rw [hc.lin, hc.circ]; exact fresh_shapeOK cfg.N lin circ)).2
+
+theorem sis_inv_history_any_resampler (rs : PSet π ℝ → PSet π ℝ → ℝ → PSet π ℝ × List Int)
+    (cfg : SisCfg ℝ) (lin circ : Nat) (hN : 0 < cfg.N) (hrs : ResamplerOK cfg.N lin circ rs)
+    (init : PSet π ℝ → PSet π ℝ) (rng : List ℝ)
+    (hinit : InitOK cfg lin circ init) (evs : List (SisEvent π ℝ)) (hevs : ∀ ev ∈ evs, EvOK cfg.N ev) :
+    SisInv cfg lin circ (evs.foldl (sisStepWith rs cfg) (sisInit cfg lin circ init rng)) := by
+  suffices h : ∀ (s : SisState π ℝ), SisInv cfg lin circ s → SisInv cfg lin circ (evs.foldl (sisStepWith rs cfg) s) from
+    h _ (sis_inv_init cfg lin circ init rng hinit)
+  induction evs with
+  | nil => intro s hs; exact hs
+  | cons ev evs ih =>
+    intro s hs
+    rw [List.foldl_cons]
+    exact ih (fun e he => hevs e (List.mem_cons_of_mem _ he)) _
+      (sis_inv_stepWith rs cfg lin circ hN hrs s ev hs (hevs ev List.mem_cons_self))
+
+/-- `Resampling` meets the contract -/
+theorem resampler_ok_systematic (N lin circ : Nat) (hN : 0 < N) :
+    ResamplerOK N lin circ (resample (π := π) (α := ℝ)) :=
+  resample_resamplerOK N lin circ hN
+
+/-- `ResamplingWithPrior` meets the contract (any admissible sort, any shape-keeping initialiser,
+    any prior ratio in `[0, 1)`) -/
+theorem resampler_ok_prior (N lin circ : Nat) (hN : 0 < N) (sortIdx : List ℝ → List Nat) (init : PSet π ℝ → PSet π ℝ)
+    (ratio : ℝ) (hs : SortPerm sortIdx) (hi : InitKeepsShape init) (h1 : ratio < 1) :
+    ResamplerOK N lin circ (fun cor _res u => resampleWithPrior (fun x => ⌊x⌋₊) sortIdx init ratio cor u) := by
+  intro cor _res u h _
+  have hc : cor.logw.length = cor.parts.length := by rw [h.logw, h.parts]
+  have hNp : 0 < cor.parts.length := by rw [h.parts]; exact hN
+  have hk := (prior_count_lt ratio cor h1 hNp).le
+  obtain ⟨a1, a2, a3, a4, a5, a6⟩ := rwp_shape (fun x => ⌊x⌋₊) sortIdx init ratio cor u hs.len hi hc hk
+  rw [h.parts] at a1 a2 a6
+  refine ⟨?_, a6⟩
+  exact { n := a1, lin := by rw [a3]; exact h.lin, circ := by rw [a4]; exact h.circ, quat := by rw [a5]; exact h.quat,
+          parts := a2, logw := by rw [a6]; simp, norm := by rw [a6]; exact sum_exp_uniform N hN }
 
 /-! ### Non-vacuity -/
 
